@@ -358,6 +358,14 @@ let check_line (line : string) : unit =
       if order "dispose" 'X' <> model_order then
         disagree "dispose_order" 0 (tok_of_ints model_order) (tok_of_ints (order "dispose" 'X'));
       if not (visit "setup" 'S') then oracle "setup_visits" 0;
+      (* C13: the data a batch controller declares is set up exactly once (a counting setup handler on the controller data
+         of menu item 6, recognisable by its declared read of resource 6) *)
+      (if get "ctlsetups" <> "" then begin
+         let rec count rs = List.fold_left (fun a r -> match r with
+             | RBatch (_, _, _, cr, cw, _, _, inner) -> a + (if List.map int_of_n cr = [6] && cw = [] then 1 else 0) + count inner
+             | _ -> a) 0 rs in
+         if int_of_string (get "ctlsetups") <> count regs then oracle "setup_visits" 0
+       end);
       if get "setupkeeps" <> "1" || get "setupok" <> "1" then oracle "setup_keeps" 0;
       if not (visit "dispose" 'X') || get "disposeok" <> "1" then oracle "dispose_visits" 0;
       if get "idok" <> "1" then oracle "identify_run" 0
